@@ -190,7 +190,7 @@ theorem expo_hi (I F : Digits) : expo (I, F) ≤ (I.length : Int) - 1 := by
 theorem literal_roundtrip_f (I F : Digits) (hI : canonI I = I) (hF : canonF F = F)
     (hk5 : 5 ≤ F.length) (hk6 : F.length ≤ 6) (hI9 : I.length ≤ 9)
     (hlo : I ≠ [0] ∨ lz F ≤ 3) :
-    handle (I, F) = .ok (some (text I ++ '.' :: text F)) := by
+    handleLegacy (I, F) = .ok (some (text I ++ '.' :: text F)) := by
   have h0 : F ≠ [0] := by intro h; rw [h] at hk5; simp at hk5
   have hne : F ≠ [] := by intro h; rw [h] at hk5; simp at hk5
   have hFs := canonF_strip F hF h0
@@ -211,7 +211,7 @@ theorem literal_roundtrip_f (I F : Digits) (hI : canonI I = I) (hF : canonF F = 
     unfold fmtF6
     have h1 : ¬ 15 < (sig (I, F)).length := by omega
     simp only [h1, hI, hF, hk6, h0, hI9, if_true, if_false]
-  unfold handle
+  unfold handleLegacy
   simp only [hp, splitDot1_text, text_length, hf]
   have : 4 < F.length := by omega
   simp only [this, if_true, Option.map, rstrip0_render I F _ hFs hne]
@@ -235,7 +235,7 @@ theorem round6_short (D : Digits) (X : Int) (h : D.length ≤ 6) :
 /-- `:g` is exact for at most 4 fractional digits (not integral) and at most 6 significant digits -/
 theorem literal_roundtrip_g (I F : Digits) (hI : canonI I = I) (hF : canonF F = F)
     (h0 : F ≠ [0]) (hk : F.length ≤ 4) (hs6 : (sig (I, F)).length ≤ 6) :
-    handle (I, F) = .ok (some (text I ++ '.' :: text F)) := by
+    handleLegacy (I, F) = .ok (some (text I ++ '.' :: text F)) := by
   have hFs := canonF_strip F hF h0
   have hne : F ≠ [] := by
     intro h; rw [h] at hF; simp [canonF, stripTrail] at hF
@@ -280,7 +280,7 @@ theorem literal_roundtrip_g (I F : Digits) (hI : canonI I = I) (hF : canonF F = 
         stripTrail_append_zeros, hGt]
       have : (-expo ([0], F)).toNat - 1 = lz F := by rw [hexpo]; omega
       rw [this, hsplit]; rfl
-    unfold handle
+    unfold handleLegacy
     simp only [hp, splitDot1_text, text_length, hg]
     have : ¬ 4 < F.length := by omega
     simp only [this, if_false]
@@ -311,7 +311,7 @@ theorem literal_roundtrip_g (I F : Digits) (hI : canonI I = I) (hF : canonF F = 
         rw [List.append_assoc]; exact List.drop_left
       rw [ht, hdp, stripTrail_append_zeros, hFs]
       simp [hne]
-    unfold handle
+    unfold handleLegacy
     simp only [hp, splitDot1_text, text_length, hg]
     have : ¬ 4 < F.length := by omega
     simp only [this, if_false]
@@ -384,25 +384,25 @@ theorem preserves_text (I F : Digits) (hI : I ≠ []) (hF : F ≠ [])
 /-! ### counter-examples: what the model of the current code returns -/
 
 theorem counter_f_rounds :
-    handle ([0], [1,2,3,4,5,6,7,8,9]) = .ok (some "0.123457".toList) := rfl
+    handleLegacy ([0], [1,2,3,4,5,6,7,8,9]) = .ok (some "0.123457".toList) := rfl
 theorem counter_small_indexError :
-    handle ([0], [0,0,0,0,1]) = .error .indexError := rfl
+    handleLegacy ([0], [0,0,0,0,1]) = .error .indexError := rfl
 theorem counter_big_indexError :
-    handle ([1,0,0,0,0,0,0,0,0,0,0,0,0,0,0,0,0,0,0,0,0], [0]) = .error .indexError := rfl
+    handleLegacy ([1,0,0,0,0,0,0,0,0,0,0,0,0,0,0,0,0,0,0,0,0], [0]) = .error .indexError := rfl
 theorem counter_g_rounds :
-    handle ([1,2,3], [4,5,6,7]) = .ok (some "123.457".toList) := rfl
+    handleLegacy ([1,2,3], [4,5,6,7]) = .ok (some "123.457".toList) := rfl
 theorem counter_g_exponent :
-    handle ([1,2,3,4,5,6,7], [0]) = .ok (some "1.23457e+06".toList) := rfl
+    handleLegacy ([1,2,3,4,5,6,7], [0]) = .ok (some "1.23457e+06".toList) := rfl
 theorem counter_integral :
-    handle ([5], [0]) = .ok (some "5".toList) := rfl
+    handleLegacy ([5], [0]) = .ok (some "5".toList) := rfl
 theorem counter_tiny :
-    handle ([0], [0,0,0,0,0,0,1,5]) = .ok (some "0.".toList) := rfl
+    handleLegacy ([0], [0,0,0,0,0,0,1,5]) = .ok (some "0.".toList) := rfl
 theorem counter_dangling_dot :
-    handle ([9], [9,9,9,9,9,9,6]) = .ok (some "10.".toList) := rfl
+    handleLegacy ([9], [9,9,9,9,9,9,6]) = .ok (some "10.".toList) := rfl
 theorem counter_big_dangling_dot :
-    handle ([1,5,0,0,0,0,0,0,0,0,0,0,0,0,0,0,0,0,0,0], [0]) = .ok (some "15000000000000000000.".toList) := rfl
+    handleLegacy ([1,5,0,0,0,0,0,0,0,0,0,0,0,0,0,0,0,0,0,0], [0]) = .ok (some "15000000000000000000.".toList) := rfl
 theorem counter_g_integer :
-    handle ([1,2,3,4,5,6], [5]) = .ok (some "123456".toList) := rfl
+    handleLegacy ([1,2,3,4,5,6], [5]) = .ok (some "123456".toList) := rfl
 
 /-- none of these outputs is a NUMBER_CONSTANT with the value of the literal -/
 theorem counter_not_preserved :
@@ -416,21 +416,21 @@ theorem counter_not_preserved :
 
 /-- the model declines to answer where the binary neighbour decides -/
 theorem unknown_examples :
-    handle ([9,2,3,4,5,6,7,8,9,0], [1,2,3,4,5]) = .ok none ∧      -- 10 integer digits, 5 fractional
-    handle ([1,2,3,4,5], [6,5]) = .ok none ∧                        -- :g tie below 1e5
-    handle ([0], [1,2,3,4,5,6,5]) = .ok none ∧                      -- :f tie
-    handle ([1,2,3,4,5,6,7,8,9,0,1,2,3,4,5,6], [5]) = .ok none :=   -- 17 significant digits
+    handleLegacy ([9,2,3,4,5,6,7,8,9,0], [1,2,3,4,5]) = .ok none ∧      -- 10 integer digits, 5 fractional
+    handleLegacy ([1,2,3,4,5], [6,5]) = .ok none ∧                        -- :g tie below 1e5
+    handleLegacy ([0], [1,2,3,4,5,6,5]) = .ok none ∧                      -- :f tie
+    handleLegacy ([1,2,3,4,5,6,7,8,9,0,1,2,3,4,5,6], [5]) = .ok none :=   -- 17 significant digits
   ⟨rfl, rfl, rfl, rfl⟩
 
 /-! ### the two exact bands are not empty -/
 
-example : handle ([1,2], [5]) = .ok (some "12.5".toList) :=
+example : handleLegacy ([1,2], [5]) = .ok (some "12.5".toList) :=
   literal_roundtrip_g [1,2] [5] (by decide) (by decide) (by decide) (by decide) (by decide)
-example : handle ([0], [0,0,0,1]) = .ok (some "0.0001".toList) :=
+example : handleLegacy ([0], [0,0,0,1]) = .ok (some "0.0001".toList) :=
   literal_roundtrip_g [0] [0,0,0,1] (by decide) (by decide) (by decide) (by decide) (by decide)
-example : handle ([1,2,3,4,5,6,7,8,9], [1,2,3,4,5,6]) = .ok (some "123456789.123456".toList) :=
+example : handleLegacy ([1,2,3,4,5,6,7,8,9], [1,2,3,4,5,6]) = .ok (some "123456789.123456".toList) :=
   literal_roundtrip_f _ _ (by decide) (by decide) (by decide) (by decide) (by decide) (by decide)
-example : handle ([0], [0,0,0,1,5]) = .ok (some "0.00015".toList) :=
+example : handleLegacy ([0], [0,0,0,1,5]) = .ok (some "0.00015".toList) :=
   literal_roundtrip_f _ _ (by decide) (by decide) (by decide) (by decide) (by decide) (by decide)
 
 /-! ### the meaning-preserving renderer `render` (what the proposed patch prints) -/
